@@ -27,7 +27,7 @@ ASSUMPTIONS = ["the harness waits 3 s for the number of requests the model expec
                "hide a difference"]
 
 KINDS = ["none", "cl1", "cl1023", "cl1024", "cl1025", "cl5000", "chunked", "expect5", "none", "cl1024", "cl5000close",
-         "cl0", "cl0", "v10ka", "v10ka", "cl7close"]
+         "cl0", "cl0", "v10ka", "v10ka", "cl7close", "conn2up"]
 
 
 def mk(rng, kind, tag):
@@ -37,6 +37,11 @@ def mk(rng, kind, tag):
         # a streamed request that also ends the connection: nothing behind it is ever parsed
         r = AReq(method="POST", target="/" + tag, version="1.1", headers=[("Host", "h")], framing="cl", body=body_bytes(tag, 5000), conn="close")
         return r, "last"
+    if kind == "conn2up":
+        # two Connection fields; only the FIRST one counts (for persistence and for upgrade alike): an ordinary request
+        r = AReq(method="GET", target="/" + tag, version="1.1", headers=[("Host", "h"), ("Connection", "keep-alive"), ("Connection", "Upgrade"),
+                                                                         ("Upgrade", "x")])
+        return r, False
     if kind == "cl7close":
         # a pre-buffered request that ends the connection: it is obtainable at once, nothing behind it is ever parsed
         r = AReq(method="POST", target="/" + tag, version="1.1", headers=[("Host", "h")], framing="cl", body=body_bytes(tag, 7), conn="close")
